@@ -23,6 +23,7 @@ type c02Case struct {
 	Prev    *tableSpec `json:"prev,omitempty"` // table written first (rewrite class); geometry of New is used
 	New     tableSpec  `json:"new"`
 	DiskSig uint32     `json:"disksig"` // pre-existing MBR disk signature bytes 440..443
+	SameObj bool       `json:"sameobj,omitempty"` // rewrite: read the previous GPT back, change that very object into the new table, write it again
 }
 
 func genC02(t *rapid.T) any {
@@ -43,6 +44,10 @@ func genC02(t *rapid.T) any {
 			m.LSS = c.New.lss()
 			m.Sectors = uint64(c.New.diskSize() / int64(m.LSS))
 			c.Prev = &tableSpec{M: m}
+		}
+		if c.Prev != nil && c.Prev.G != nil && c.New.G != nil {
+			c.Prev.G.PSS = c.New.G.PSS
+			c.SameObj = rapid.Bool().Draw(t, "sameObject")
 		}
 	}
 	return c
@@ -95,7 +100,27 @@ func execC02(ci any) (r hx.Result) {
 	} else if size >= 1<<32 {
 		r.Class("geometry:>=4GiB")
 	}
-	err, p, pv, st := writeTable(d, s)
+	var err error
+	var p bool
+	var pv any
+	var st string
+	if c.SameObj && c.Prev != nil && c.Prev.G != nil && s.G != nil {
+		// the read-modify-write flow on one Table object (GetPartitionTable, change Partitions, Partition(sameTable)):
+		// nothing the object remembers about the table it was read from may survive into the bytes it writes
+		r.Class("rewrite:same-object")
+		p, pv, st = hx.Safe(func() {
+			var rt *gpt.Table
+			rt, err = gpt.Read(d, lss, s.G.pss())
+			if err != nil {
+				return
+			}
+			nt := s.G.table()
+			rt.Partitions, rt.GUID, rt.ProtectiveMBR = nt.Partitions, nt.GUID, nt.ProtectiveMBR
+			err = rt.Write(d, size)
+		})
+	} else {
+		err, p, pv, st = writeTable(d, s)
+	}
 	if p {
 		r.Fail("write-panic", "Table.Write panicked on an in-domain table: %v [%s]", pv, st)
 		return
